@@ -11,7 +11,7 @@ S4  random define / redefine / write histories are executed through the public A
     file, the data must sit at the offsets the header states, and nothing of a clobbered
     predecessor may survive.
 """
-import os, sys, json, copy, subprocess
+import os, sys, json, copy, subprocess, unicodedata
 sys.path.insert(0, os.path.dirname(os.path.abspath(__file__)))
 from common import *
 import c04 as H
@@ -20,7 +20,7 @@ PROP = 'C03'
 TSIZE = H.TSIZE
 LEAN_FILES = ['PnVerif/Spec/SpecDecode.lean', 'PnVerif/Model/Header.lean', 'PnVerif/Model/HeaderText.lean', 'PnVerif/Model/Layout.lean',
               'PnVerif/Lemmas/HeaderLemmas.lean', 'PnVerif/Lemmas/Window.lean', 'PnVerif/Lemmas/Decode.lean', 'PnVerif/Lemmas/Encode.lean',
-              'PnVerif/Lemmas/LayoutLemmas.lean', 'PnVerif/Lemmas/PostPass.lean', 'PnVerif/Lemmas/Accept.lean', 'PnVerif/Props/C04.lean', 'PnVerif/Props/C03.lean', 'Driver/C03.lean']
+              'PnVerif/Lemmas/LayoutLemmas.lean', 'PnVerif/Lemmas/PostPass.lean', 'PnVerif/Lemmas/Accept.lean', 'PnVerif/Lemmas/Written.lean', 'PnVerif/Props/C04.lean', 'PnVerif/Props/C03.lean', 'Driver/C03.lean']
 hx, unhx = H.hx, H.unhx
 SAFE_REST = H.FIRST + '._-+@'
 
@@ -47,25 +47,48 @@ class LeanProc:
             self.p.kill()
 
 
-def gen_name(rng, used):
-    for _ in range(200):
-        n = rng.choice([1, 2, 3, 5, 8, 13, 30, 64, 255, 256]) if rng.chance(1, 6) else rng.range(1, 10)
+# legal UTF-8 that is NOT in NFC: decomposed forms, composition-excluded characters and singletons
+# whose NFC has a different byte length (the library stores the NFC form, utf8proc)
+NON_NFC = ['e\u0301', 'u\u0308', 'A\u030a', 'n\u0303', '\u0958', '\u0959', '\u095b', '\u095f', '\u0344', '\u2126', '\u212b',
+           '\u1e9b\u0323', 'o\u0302\u0301', '\u0f43', '\ufb1f', '\u2000']
+RAW_OF = {}         # stored (NFC) name -> the raw bytes handed to the API
+
+
+def raw_hex(name):
+    return hx(RAW_OF.get(name, name))
+
+
+def gen_name(rng, used, maxlen=256):
+    """returns the name as the library stores it (NFC); the raw form given to the API is in RAW_OF"""
+    for _ in range(300):
+        nonnfc = rng.chance(1, 5)
+        n = rng.choice([1, 2, 3, 5, 8, 13, 30, 64, 255, 256]) if (rng.chance(1, 6) and not nonnfc) else rng.range(1, 10)
+        n = min(n, maxlen)
         utf = rng.chance(1, 4)
         s = ''
         while len(s.encode('utf8')) < n:
-            if utf and rng.chance(1, 3):
-                s += rng.choice(H.UTF8_PIECES)
-            elif not s:
+            if not s:
                 s += rng.choice(H.FIRST)
+            elif nonnfc and rng.chance(1, 2):
+                s += rng.choice(NON_NFC)
+            elif utf and rng.chance(1, 3):
+                s += rng.choice(H.UTF8_PIECES)
             else:
                 s += rng.choice(SAFE_REST)
-        b = s.encode('utf8')
-        while len(b) > 256:
+        if s[-1] == '\u2000':
+            s += 'z'
+        while len(s.encode('utf8')) > 256:
             s = s[:-1]
-            b = s.encode('utf8')
-        if b and b not in used:
-            used.add(b)
-            return b
+        raw = s.encode('utf8')
+        b = unicodedata.normalize('NFC', s).encode('utf8')
+        if not b or len(b) > maxlen or len(b) > 256 or b in used:
+            continue
+        used.add(b)
+        if raw != b:
+            RAW_OF[b] = raw
+        else:
+            RAW_OF.pop(b, None)
+        return b
     raise RuntimeError('name generation')
 
 
@@ -212,6 +235,12 @@ def gen_scenario(rng, lean, path, kind, feats):
             else:
                 a = dict(name=gen_name(rng, used), type=t, nelems=n, value=gen_value(rng, t, n))
                 lst.append(a)
+                if a['name'] in RAW_OF:
+                    feats.add('non-NFC-name')
+                ok('putatt %d %s %d %d %s' % (varid, raw_hex(a['name']), a['type'], a['nelems'], hx(a['value'])))
+                if n == 0:
+                    feats.add('zero-length-att')
+                return True
             if n == 0:
                 feats.add('zero-length-att')
         ok('putatt %d %s %d %d %s' % (varid, hx(a['name']), a['type'], a['nelems'], hx(a['value'])))
@@ -225,7 +254,9 @@ def gen_scenario(rng, lean, path, kind, feats):
                 size = 0
             d = dict(name=gen_name(rng, m.names['d']), size=size)
             m.s['dims'].append(d)
-            ops.append(('defdim %s %d' % (hx(d['name']), size), dict(kind='def', id=len(m.s['dims']) - 1)))
+            if d['name'] in RAW_OF:
+                feats.add('non-NFC-name')
+            ops.append(('defdim %s %d' % (raw_hex(d['name']), size), dict(kind='def', id=len(m.s['dims']) - 1)))
         for _ in range(rng.choice([0, 1, 2, 3]) if first else rng.choice([0, 1, 2])):
             put_att(-1)
         nv = (rng.choice([0, 1, 2, 3, 5]) if first else rng.choice([0, 1, 1, 2])) if kind != 'novars' else 0
@@ -241,7 +272,9 @@ def gen_scenario(rng, lean, path, kind, feats):
             v = dict(name=gen_name(rng, m.names['v']), dimids=ids, atts=[], type=types(), vsize=0, begin=0)
             m.s['vars'].append(v)
             vid = len(m.s['vars']) - 1
-            ops.append(('defvar %s %d %d %s' % (hx(v['name']), v['type'], len(ids), ' '.join(str(i) for i in ids)),
+            if v['name'] in RAW_OF:
+                feats.add('non-NFC-name')
+            ops.append(('defvar %s %d %d %s' % (raw_hex(v['name']), v['type'], len(ids), ' '.join(str(i) for i in ids)),
                         dict(kind='def', id=vid)))
             for _ in range(rng.choice([0, 0, 1, 2])):
                 put_att(vid)
@@ -266,7 +299,7 @@ def gen_scenario(rng, lean, path, kind, feats):
             new = newname(v['name'], m.names['v'], in_data_mode)
             if new:
                 v['name'] = new
-                ok('renvar %d %s' % (k, hx(new)))
+                ok('renvar %d %s' % (k, raw_hex(new)))
                 feats.add('rename' + ('-data-mode' if in_data_mode else ''))
         elif r == 1 and m.s['dims']:
             k = rng.below(len(m.s['dims']))
@@ -274,7 +307,7 @@ def gen_scenario(rng, lean, path, kind, feats):
             new = newname(d['name'], m.names['d'], in_data_mode)
             if new:
                 d['name'] = new
-                ok('rendim %d %s' % (k, hx(new)))
+                ok('rendim %d %s' % (k, raw_hex(new)))
                 feats.add('rename' + ('-data-mode' if in_data_mode else ''))
         else:
             cand = [(-1, a) for a in m.s['gatts']] + [(k, a) for k, v in enumerate(m.s['vars']) for a in v['atts']]
@@ -283,22 +316,20 @@ def gen_scenario(rng, lean, path, kind, feats):
                 used = m.names.setdefault('g' if vid < 0 else ('a', vid), set())
                 new = newname(a['name'], used, in_data_mode)
                 if new:
-                    ok('renatt %d %s %s' % (vid, hx(a['name']), hx(new)))
+                    ok('renatt %d %s %s' % (vid, hx(a['name']), raw_hex(new)))
                     a['name'] = new
                     feats.add('rename' + ('-data-mode' if in_data_mode else ''))
 
     def newname(oldn, used, in_data_mode):
+        # in data mode the STORED (NFC) name may not be longer than the old one
         for _ in range(30):
-            n = gen_name(rng, set())
-            if in_data_mode and len(n) > len(oldn):
-                n = n[:len(oldn)]
-                try:
-                    n.decode('utf8')
-                except UnicodeDecodeError:
-                    continue
-            if n and n not in used:
-                used.add(n)
-                return n
+            try:
+                n = gen_name(rng, used, maxlen=len(oldn) if in_data_mode else 256)
+            except RuntimeError:
+                return None
+            if n in RAW_OF:
+                feats.add('non-NFC-rename')
+            return n
         return None
 
     def enddef():
@@ -546,17 +577,6 @@ def run_check(tier, seed):
     V.cov['trusted_base'] = TRUSTED_BASE_COMMON + [
         'hand-written models lean/PnVerif/Model/Layout.lean, Model/Header.lean (tied by correspondence, not by proof)',
         'harness/c03_api.c, checks/c03.py (scenario generator, schema bookkeeping, canonicalisation)']
-    # findings proposed by this check but not yet merged into KNOWN_FINDINGS.txt by the integrator
-    # (findings/C03.txt, same syntax): treated as known so that the unchanged tree stays green; the
-    # KNOWN-FINDING line is printed all the same.  Remove once merged.
-    try:
-        import re as _re
-        for line in open(os.path.join(VERIF, 'findings', 'C03.txt')):
-            mm = _re.match(r'finding:\s+property=(\S+)\s+sig=(\S+)\s+(.*)$', line.strip())
-            if mm and mm.group(1) == PROP and not any(k['sig'] == mm.group(2) for k in V.known):
-                V.known.append(dict(sig=mm.group(2), text=mm.group(3) + ' (proposed in findings/C03.txt)'))
-    except OSError:
-        pass
     tree = build_impl('plain')
     wd = workdir('c03')
     lean = None
